@@ -480,9 +480,19 @@ def make_fuzz_scheduler(cfg):
                     prev = task.current_placement
                     keep_t = us(task.expected_start_time)
                     if prev is not None and prev.is_placed() and keep_t is not None and keep_t >= now:
+                        wid = None
+                        if rng.random() < cfg.get("p_worker", 0.0):
+                            # same time, pool and strategy — only the worker of the pool changes
+                            ppool = [pl for pl in worker_pools.worker_pools if pl.id == prev.worker_pool_id]
+                            fitting = [w for w in (ppool[0].workers if ppool else [])
+                                       if deepcopy(w).can_accomodate_strategy(prev.execution_strategy)]
+                            others = [w for w in fitting if w.id != prev.worker_id] or fitting
+                            if others:
+                                wid = rng.choice(others).id
                         placements.append(Placement.create_task_placement(
                             task=task, placement_time=EventTime(keep_t, EventTime.Unit.US),
-                            worker_pool_id=prev.worker_pool_id, execution_strategy=prev.execution_strategy))
+                            worker_pool_id=prev.worker_pool_id, worker_id=wid,
+                            execution_strategy=prev.execution_strategy))
                         continue
                 rel = us(task.release_time)
                 base = max(now, rel if rel is not None and rel >= 0 else now)
